@@ -312,10 +312,10 @@ def evaluate(ctx, res, exe, np, setting, lines, tag, dist, shrink=True, stuck=45
             def failing(ls):
                 if not ls or ls[-1] != 'drain':
                     ls = ls + ['drain']
-                rr = run_case(ctx, exe, np, setting, ls, tag + '-s', timeout=200, stuck=10)
+                rr = run_case(ctx, exe, np, setting, ls, tag + '-s', timeout=200, stuck=8)
                 pp = [split_rank(t) for t in rr['ranks']]
                 return any(e[1] == 'stuck' for q in pp for e in q[2])
-            small = pv.ddmin(lines, failing, max_tests=10)
+            small = pv.ddmin(lines, failing, max_tests=5)
             case = {'np': np, 'setting': list(setting), 'script': small, 'stuck': 10}
         res.violations.append({'key': 'stuck:' + hashlib.md5('\n'.join(lines).encode()).hexdigest()[:10],
                                'what': 'messages/transfers addressed to a rank never arrive or complete (no request completed for %d s): %s ; first missing: %s' % (
@@ -425,6 +425,8 @@ def run(ctx, res, cases=None):
             nclean += 1
         if len([v for v in res.violations if not v['key'].startswith('F')]) + len(res.disagreements) >= 3:
             break
+        if any(v['key'].startswith('stuck:') for v in res.violations):
+            break   # a lost completion: one minimised failing script is enough, every further one costs a time-out
     res.rule = ('corpus scripts first, then generated scripts: 2-4 MPI ranks, phases of bursts of active messages (3 stream tags, 0..16384 bytes, messages above the eager '
                 'limit from one sender per phase) and put/get transfers of 0..4 MiB (one primitive per ordered pair and phase), random polls, closed by a drain; request parameters '
                 '(posted, tested, dynamic, dynamic_recv) from (1,1,1,1) upward; distinct = distinct (ranks, setting, script); non-trivial = at least one MPI_Testsome pass completed a request')
